@@ -1,28 +1,481 @@
-"""C12 Merged deltas equal the direct delta (Kani)."""
-from kprop import run_kani_part
+"""C12 Merged deltas equal the direct delta (M engine: bounded symbolic run of the real merge loops, z3)."""
+import glob
+import os
+import re
 
-SPEC = {
-    "groups": ["delta"],
-    "files": ["src/payload/delta.rs"],
-    "harnesses": {
-        "quick": ["c12_counts_1_1_1", "c12_counts_1_0_1", "c12_counts_0_1_0"],
-        "thorough": ["c12_counts_2_1_2", "c12_counts_1_2_1", "c12_counts_2_2_2", "c12_items_1_1_1", "c12_items_1_0_1", "c12_items_0_1_0", "c12_items_2_1_2"],
-    },
-    "harness_file": {"*": ("delta.rs", "src/payload/delta.rs")},
-    "timeout": {"quick": 900, "thorough": 7200},
-    "jobs": {"quick": 3, "thorough": 6},
+import z3
+
+import mir
+import mprop
+from vcommon import REPO
+
+F = "src/payload/delta.rs"
+KEYBITS = 32
+
+
+def rpki_action_order():
+    """Variant order of rpki::rtr::payload::Action from the pinned dependency source (Cargo.lock version)."""
+    try:
+        lock = open(os.path.join(REPO, "Cargo.lock")).read()
+        ver = re.search(r'name = "rpki"\nversion = "([^"]+)"', lock).group(1)
+        for p in glob.glob(os.path.expanduser("~/.cargo/registry/src/*/rpki-%s/src/rtr/payload.rs" % ver)):
+            m = re.search(r"pub enum Action \{(.*?)\n\}", open(p).read(), re.S)
+            if m:
+                vs = re.findall(r"^\s{4}(\w+),", m.group(1), re.M)
+                if sorted(vs) == ["Announce", "Withdraw"]:
+                    return vs, "rpki-%s source" % ver
+    except Exception:
+        pass
+    return ["Announce", "Withdraw"], "default"
+
+
+class Seq:
+    """A delta as z3 arrays (index -> field) plus its length, defined from per-key specs."""
+
+    def __init__(self, name, aspa):
+        self.name = name
+        self.key = z3.Array(name + "_key", z3.IntSort(), z3.BitVecSort(KEYBITS))
+        self.act = z3.Array(name + "_act", z3.IntSort(), z3.IntSort())
+        self.prov = z3.Array(name + "_prov", z3.IntSort(), z3.BitVecSort(8)) if aspa else None
+        self.orig = z3.Array(name + "_orig", z3.IntSort(), z3.BitVecSort(8)) if aspa else None
+        self.n = z3.Int(name + "_n")
+
+
+def spec_delta(solver, seq, pre, post, K, aspa, A):
+    """Constrain seq to be the delta construct(pre, post) must produce (per-key case analysis)."""
+    pos = z3.IntVal(0)
+    for x in range(K):
+        a, b = pre[x], post[x]
+        if not aspa:
+            present = a != b
+            act = z3.If(b != 0, z3.IntVal(A["Announce"]), z3.IntVal(A["Withdraw"]))
+            solver.add(z3.Implies(present, z3.And(z3.Select(seq.key, pos) == x, z3.Select(seq.act, pos) == act)))
+        else:
+            present = a != b
+            act = z3.If(a == 0, z3.IntVal(A["Announce"]), z3.If(b == 0, z3.IntVal(A["Withdraw"]), z3.IntVal(A["Update"])))
+            prov = b                    # Announce / Update carry the new ASPA; Aspa::withdraw() has empty providers (0)
+            solver.add(z3.Implies(present, z3.And(
+                z3.Select(seq.key, pos) == x, z3.Select(seq.act, pos) == act,
+                z3.Select(seq.prov, pos) == prov,
+                z3.Implies(a != 0, z3.Select(seq.orig, pos) == a))))
+        pos = z3.If(present, pos + 1, pos)
+    solver.add(seq.n == pos)
+
+
+def run_merge(res, E, aspa, K, tag):
+    ty = "AspaDelta" if aspa else "StandardDelta"
+    body = E.prog.find(F, ty, "merge")
+    push = E.prog.find(F, ty, "push")
+    res.functions.append("routinator::payload::delta::%s::merge with %s::push inlined (MIR, %d+%d blocks)"
+                         % (ty, ty, len(body.blocks), len(push.blocks)))
+    fields = mir.struct_fields(ty, F)
+    i_items, i_ann, i_wd = fields.index("items"), fields.index("announce_len"), fields.index("withdraw_len")
+    if aspa:
+        vs = E.prog.enums["AspaAction"]
+        A = {v: vs.index(v) for v in vs}
+        order = "crate enum AspaAction"
+    else:
+        vs, order = rpki_action_order()
+        A = {v: vs.index(v) for v in vs}
+    res.notes.append("%s: action discriminants %s (%s)" % (ty, A, order))
+    is_ann = (lambda a: z3.Or(a == A["Announce"], a == A["Update"])) if aspa else (lambda a: a == A["Announce"])
+    is_wd = lambda a: a == A["Withdraw"]
+
+    # three consecutive data sets over the keys 0..K-1: 0 = key absent, p > 0 = present (with provider set p)
+    hi = 3 if aspa else 1
+    sets = [[z3.BitVec("%s_set%s_%d" % (tag, nm, x), 8) for x in range(K)] for nm in "abc"]
+    for s_ in sets:
+        for v in s_:
+            E.solver.add(z3.ULE(v, hi))
+    d1, d2, dd = Seq(tag + "_d1", aspa), Seq(tag + "_d2", aspa), Seq(tag + "_direct", aspa)
+    spec_delta(E.solver, d1, sets[0], sets[1], K, aspa, A)
+    spec_delta(E.solver, d2, sets[1], sets[2], K, aspa, A)
+    spec_delta(E.solver, dd, sets[0], sets[2], K, aspa, A)
+    side = [d1, d2]
+    counter = [0]
+
+    def elem_fields(seq, idx):
+        out = {}
+        if not aspa:
+            out[(("f", 0),)] = z3.Select(seq.key, idx)
+            out[(("f", 1), "disc")] = z3.Select(seq.act, idx)
+        else:
+            out[(("f", 0), ("f", 0))] = z3.Select(seq.key, idx)
+            out[(("f", 0), ("f", 1))] = z3.Select(seq.prov, idx)
+            out[(("f", 1), "disc")] = z3.Select(seq.act, idx)
+            out[(("f", 1), ("v", "Update"), ("f", 0))] = z3.Select(seq.orig, idx)
+            out[(("f", 1), ("v", "Withdraw"), ("f", 0))] = z3.Select(seq.orig, idx)
+        return out
+
+    def m_default(E_, st, frame, callee, argvals, dest_ty):
+        return {(("f", i_items), "len"): z3.IntVal(0),
+                (("f", i_ann),): z3.BitVecVal(0, 64), (("f", i_wd),): z3.BitVecVal(0, 64)}
+
+    def m_deref(E_, st, frame, callee, argvals, dest_ty):
+        r = argvals[0].get(())
+        if not isinstance(r, mir.Ref):
+            return NotImplemented
+        v = E_.load(st, r.loc)
+        if ("w",) not in v:
+            return NotImplemented
+        w = v[("w",)].as_long()
+        return {("w",): v[("w",)], ("s",): z3.IntVal(0), ("n",): side[w].n}
+
+    def m_iter(E_, st, frame, callee, argvals, dest_ty):
+        v = argvals[0]
+        if ("w",) not in v:
+            return NotImplemented
+        return {k: v[k] for k in (("w",), ("s",), ("n",))}
+
+    def m_next(E_, st, frame, callee, argvals, dest_ty):
+        r = argvals[0].get(())
+        if not isinstance(r, mir.Ref):
+            return NotImplemented
+        cur = E_.load(st, r.loc)
+        if ("w",) not in cur:
+            return NotImplemented
+        s0, n0 = cur[("s",)], cur[("n",)]
+        has = n0 > 0
+        new = dict(cur)
+        new[("s",)] = z3.simplify(z3.If(has, s0 + 1, s0))
+        new[("n",)] = z3.simplify(z3.If(has, n0 - 1, n0))
+        E_.store(st, r.loc, new)
+        counter[0] += 1
+        loc = ("ELEM%d" % counter[0],)
+        E_.store(st, loc, elem_fields(side[cur[("w",)].as_long()], s0))
+        return {("disc",): z3.If(has, z3.IntVal(1), z3.IntVal(0)), (("v", "Some"), ("f", 0)): mir.Ref(loc)}
+
+    def m_cloned(E_, st, frame, callee, argvals, dest_ty):
+        v = argvals[0]
+        if ("w",) not in v:
+            return NotImplemented
+        return {k: v[k] for k in (("w",), ("s",), ("n",))}
+
+    def m_key(E_, st, frame, callee, argvals, dest_ty):
+        v = E_._through_ref(st, argvals[0])
+        k = v.get((("f", 0),))
+        if k is None:
+            return NotImplemented
+        return {(): k}
+
+    def m_vecpush(E_, st, frame, callee, argvals, dest_ty):
+        r = argvals[0].get(())
+        if not isinstance(r, mir.Ref):
+            return NotImplemented
+        cur = E_.load(st, r.loc)
+        if ("len",) not in cur:
+            return NotImplemented
+        k = cur[("len",)].as_long()
+        new = dict(cur)
+        for key, v in argvals[1].items():
+            new[(("e", k),) + key] = v
+        new[("len",)] = z3.IntVal(k + 1)
+        E_.store(st, r.loc, new)
+        return {(): mir.Str("()")}
+
+    def m_extend(E_, st, frame, callee, argvals, dest_ty):
+        """Delta::extend(iter) == push for every remaining element (extend's own body is checked separately)."""
+        r = argvals[0].get(())
+        it = argvals[1]
+        if not isinstance(r, mir.Ref) or ("w",) not in it:
+            return NotImplemented
+        cur = E_.load(st, r.loc)
+        seq = side[it[("w",)].as_long()]
+        s0, n0 = it[("s",)], it[("n",)]
+        ann = cur[(("f", i_ann),)]
+        wd = cur[(("f", i_wd),)]
+        for j in range(K):
+            a = z3.Select(seq.act, s0 + j)
+            ann = ann + z3.If(z3.And(j < n0, is_ann(a)), z3.BitVecVal(1, 64), z3.BitVecVal(0, 64))
+            wd = wd + z3.If(z3.And(j < n0, is_wd(a)), z3.BitVecVal(1, 64), z3.BitVecVal(0, 64))
+        new = dict(cur)
+        new[(("f", i_ann),)] = ann
+        new[(("f", i_wd),)] = wd
+        new[(("f", i_items), "tail_w")] = it[("w",)]
+        new[(("f", i_items), "tail_s")] = s0
+        new[(("f", i_items), "tail_n")] = n0
+        E_.store(st, r.loc, new)
+        return {(): mir.Str("()")}
+
+    consts = {}
+    if not aspa:
+        for v in A:
+            consts[r"^(const )?rpki::rtr::(payload::)?Action::%s$" % v] = {("disc",): z3.IntVal(A[v])}
+
+    def pre(E_, st, frame):
+        for w, a in enumerate(("_1", "_2")):
+            loc = ("IN%d" % w,)
+            st.mem[loc + (("f", i_items), "w")] = z3.IntVal(w)
+            E_.store(st, (frame["id"] + ":" + a,), {(): mir.Ref(loc)})
+
+    paths = E.explore(body, max_visits=2 * K + 3, pre=pre, consts=consts, max_paths=400000,
+                      inline=[r"%s(::<.*>)?::push$" % ty],
+                      models={
+                          r"^<%s(<.*>)? as Default>::default$" % ty: m_default,
+                          r"^<Vec<.*> as Deref>::deref$": m_deref,
+                          r"^core::slice::<impl \[.*\]>::iter$": m_iter,
+                          r"^<std::slice::Iter<.*> as Iterator>::next$": m_next,
+                          r"^<std::slice::Iter<.*> as Iterator>::cloned::<": m_cloned,
+                          r"Aspa::key$": m_key,
+                          r"^Vec::<.*>::push$": m_vecpush,
+                          r"%s(::<.*>)?::extend::<" % ty: m_extend,
+                      })
+    n_ret = 0
+    shapes = set()
+    for i, p in enumerate(paths):
+        if p.kind == "bound":
+            res.inconclusive.append("%s::merge: a feasible path exceeds %d loop iterations with %d keys" % (ty, 2 * K + 3, K))
+            continue
+        if p.kind != "return":
+            if p.kind == "panic" and E.feasible(p.cond):
+                fn = mprop.write_cex(res, "%s_panic_%d" % (tag, i), p, E, "merge panics", E.model(p.cond))
+                res.violation("mir:merge:%s:panic" % tag, "%s::merge can panic on consecutive deltas" % ty, fn)
+            continue
+        n_ret += 1
+        ret = p.ret
+        ln = ret.get((("f", i_items), "len"))
+        if ln is None:
+            res.inconclusive.append("%s::merge: returned value has no modelled item list" % ty)
+            continue
+        m = ln.as_long()
+        tn = ret.get((("f", i_items), "tail_n"))
+        nt = z3.If(tn > 0, tn, z3.IntVal(0)) if tn is not None else z3.IntVal(0)
+        good = [m + nt == dd.n]
+
+        def same(out_key, out_act, out_prov, out_orig, idx):
+            c = [out_key == z3.Select(dd.key, idx), out_act == z3.Select(dd.act, idx)]
+            if aspa:
+                c.append(out_prov == z3.Select(dd.prov, idx))
+                c.append(z3.Implies(out_act != A["Announce"], out_orig == z3.Select(dd.orig, idx)))
+            return z3.And(c)
+
+        shape = []
+        for k in range(m):
+            base = (("f", i_items), ("e", k))
+            if not aspa:
+                kk = ret.get(base + (("f", 0),))
+                aa = ret.get(base + (("f", 1), "disc"))
+                pp = oo = None
+            else:
+                kk = ret.get(base + (("f", 0), ("f", 0)))
+                pp = ret.get(base + (("f", 0), ("f", 1)))
+                aa = ret.get(base + (("f", 1), "disc"))
+                # the payload of the pushed action: whichever variant is live
+                ou = ret.get(base + (("f", 1), ("v", "Update"), ("f", 0)))
+                ow = ret.get(base + (("f", 1), ("v", "Withdraw"), ("f", 0)))
+                oo = None
+                if aa is not None:
+                    zero = z3.BitVecVal(0, 8)
+                    oo = z3.If(aa == A["Update"], ou if mir.is_z(ou) else zero, ow if mir.is_z(ow) else zero)
+                    if not mir.is_z(ou) and E.feasible(p.cond, aa == A["Update"]) or \
+                            not mir.is_z(ow) and E.feasible(p.cond, aa == A["Withdraw"]):
+                        kk = None       # payload of the live variant unknown to the encoder
+            if not all(mir.is_z(v) for v in ([kk, aa] + ([pp] if aspa else []))):
+                res.inconclusive.append("%s::merge: pushed element %d on path %d not fully modelled" % (ty, k, i))
+                good = None
+                break
+            good.append(same(kk, aa, pp, oo, z3.IntVal(k)))
+            shape.append(str(z3.simplify(aa)))
+        if good is None:
+            continue
+        if tn is not None:
+            tw = ret[(("f", i_items), "tail_w")].as_long()
+            ts = ret[(("f", i_items), "tail_s")]
+            seq = side[tw]
+            for j in range(K):
+                idx = ts + j
+                good.append(z3.Implies(j < nt, same(
+                    z3.Select(seq.key, idx), z3.Select(seq.act, idx),
+                    z3.Select(seq.prov, idx) if aspa else None, z3.Select(seq.orig, idx) if aspa else None,
+                    z3.IntVal(m) + j)))
+        # counts equal the listed actions of the direct delta
+        ann = z3.BitVecVal(0, 64)
+        wd = z3.BitVecVal(0, 64)
+        for j in range(K):
+            a = z3.Select(dd.act, j)
+            ann = ann + z3.If(z3.And(j < dd.n, is_ann(a)), z3.BitVecVal(1, 64), z3.BitVecVal(0, 64))
+            wd = wd + z3.If(z3.And(j < dd.n, is_wd(a)), z3.BitVecVal(1, 64), z3.BitVecVal(0, 64))
+        ra, rw = ret.get((("f", i_ann),)), ret.get((("f", i_wd),))
+        if not (mir.is_z(ra) and mir.is_z(rw)):
+            res.inconclusive.append("%s::merge: counters not modelled on path %d" % (ty, i))
+            continue
+        items_ok = z3.And(good)
+        counts_ok = z3.And(ra == ann, rw == wd)
+        shapes.add((tuple(shape), tn is not None))
+        for what, cond_ok, key in (("lists different actions than the direct delta", items_ok, "items"),
+                                   ("has counts that differ from the direct delta's", counts_ok, "counts")):
+            mdl = E.model(p.cond, z3.Not(cond_ok))
+            if mdl is not None:
+                cex = {nm: [mdl.eval(v, model_completion=True).as_long() for v in s_] for nm, s_ in zip("abc", sets)}
+                desc = "%s::merge(construct(a,b), construct(b,c)) %s for a=%s b=%s c=%s (per key 0..%d: 0 absent%s)" % (
+                    ty, what, cex["a"], cex["b"], cex["c"], K - 1, ", n = provider set n" if aspa else ", 1 present")
+                fn = mprop.write_cex(res, "%s_%s_%d" % (tag, key, i), p, E, desc, mdl)
+                ok = replay(res, aspa, cex, K)
+                if ok is False:
+                    res.inconclusive.append("counterexample %s did not reproduce natively" % desc)
+                else:
+                    res.violation("mir:merge:%s:%s" % (tag, key), desc + ("" if ok else " [native replay unavailable]"), fn)
+                break
+    res.distinct += len(shapes)
+    res.samples.append({"function": ty + "::merge", "keys": K, "returning_paths": n_ret, "distinct_output_shapes": len(shapes)})
+    if n_ret < 4:
+        res.inconclusive.append("%s::merge: only %d returning paths explored" % (ty, n_ret))
+
+
+NATIVE_TMPL = """// generated by props/c12.py: native replay of a solver-found triple of data sets
+use super::*;
+use std::sync::Arc;
+use rpki::resources::Asn;
+
+const ASPA: bool = @ASPA@;
+const STD: [&[u32]; 3] = [@STD@];
+const SETS: [&[(u32, u32)]; 3] = [@SETS@];
+
+fn aspas(set: &[(u32, u32)]) -> Vec<(Aspa, PayloadInfo)> {
+    set.iter().map(|(c, p)| (
+        Aspa::new(Asn::from_u32(*c), ProviderAsns::try_from_iter([Asn::from_u32(64500 + *p)]).unwrap()),
+        PayloadInfo::from(Arc::new(crate::slurm::ExceptionInfo::default()))
+    )).collect()
 }
+
+#[test]
+fn c12_native_merge() {
+    let (merged, direct) = if ASPA {
+        let s: Vec<_> = SETS.iter().map(|x| aspas(x)).collect();
+        let it = |i: usize| s[i].iter().map(|(a, b)| (a, b));
+        let d1 = AspaDelta::construct(it(0), it(1));
+        let d2 = AspaDelta::construct(it(1), it(2));
+        (format!("{:?}", AspaDelta::merge(&d1, &d2)), format!("{:?}", AspaDelta::construct(it(0), it(2))))
+    }
+    else {
+        let d1 = StandardDelta::<u32>::construct(STD[0].iter(), STD[1].iter());
+        let d2 = StandardDelta::<u32>::construct(STD[1].iter(), STD[2].iter());
+        (format!("{:?}", StandardDelta::merge(&d1, &d2)),
+         format!("{:?}", StandardDelta::<u32>::construct(STD[0].iter(), STD[2].iter())))
+    };
+    println!("NATIVE-C12 merged={} direct={}", merged.replace('\\n', " "), direct.replace('\\n', " "));
+    assert_eq!(merged, direct, "merged delta differs from the direct delta");
+}
+"""
+
+
+def replay(res, aspa, cex, K):
+    """Run the real construct / merge natively on the concrete data sets; True = the mismatch reproduces."""
+    import nativetest
+    from vcommon import VERIF
+    gen = os.path.join(VERIF, "native", "c12_generated.rs")
+    std = ", ".join("&[" + ", ".join("%d" % x for x, v in enumerate(cex[nm]) if v) + "]" for nm in "abc")
+    sets = ", ".join("&[" + ", ".join("(%d, %d)" % (x, v) for x, v in enumerate(cex[nm]) if v) + "]" for nm in "abc")
+    with open(gen, "w") as f:
+        f.write(NATIVE_TMPL.replace("@ASPA@", "true" if aspa else "false")
+                .replace("@STD@", std if not aspa else "&[], &[], &[]")
+                .replace("@SETS@", sets if aspa else "&[], &[], &[]"))
+    failed, passed, out = nativetest.run_native_test("native_c12", "c12_native_merge")
+    line = [l for l in out.splitlines() if "NATIVE-C12" in l]
+    res.notes.append("native replay: " + (line[0][:600] if line else "no output: " + out[-400:]))
+    if failed:
+        return True
+    if passed:
+        return False
+    return None
+
+
+def check_wrappers(res, E):
+    """PayloadDelta::merge merges field by field, old first; extend pushes every element."""
+    n = 0
+    body = E.prog.find(F, "PayloadDelta", "merge")
+    fields = mir.struct_fields("PayloadDelta", F)
+    i_serial = fields.index("serial")
+    old_serial, new_serial = z3.BitVec("old_serial", 32), z3.BitVec("new_serial", 32)
+
+    def pre(E_, st, frame):
+        st.mem[("OLD", ("f", i_serial))] = old_serial
+        st.mem[("NEW", ("f", i_serial))] = new_serial
+
+    paths = [p for p in E.explore(body, max_visits=2, pre=pre, arg_values={"_1": {(): mir.Ref(("OLD",))}, "_2": {(): mir.Ref(("NEW",))}})
+             if p.kind == "return"]
+    seen = []
+    for p in paths:
+        for e in p.events:
+            m = re.search(r"(StandardDelta|AspaDelta)(::<.*>)?::merge$", e.name)
+            if e.kind != "call" or not m:
+                continue
+            locs = []
+            for a in e.args[:2]:
+                r = a.get(())
+                locs.append(r.loc if isinstance(r, mir.Ref) else None)
+            seen.append((m.group(1), locs))
+    ok = len(paths) == 1 and len(seen) == 3
+    used = set()
+    for t, locs in seen:
+        if None in locs or len(locs[0]) != 2 or len(locs[1]) != 2:
+            ok = False
+            continue
+        # same field of old (_1) and new (_2), old first
+        if locs[0][0] != "OLD" or locs[1][0] != "NEW" or locs[0][1] != locs[1][1]:
+            ok = False
+        else:
+            used.add(fields[locs[0][1][1]])
+    n += 1
+    if not ok or used != {"origins", "router_keys", "aspas"}:
+        fn = mprop.write_cex(res, "wrapper", paths[0] if paths else mir.Path(mir.State(), {}, "static"), E,
+                             "PayloadDelta::merge does not merge origins, router_keys and aspas field by field (old, new): %s" % (seen,))
+        res.violation("mir:merge:wrapper", "PayloadDelta::merge does not merge each payload type's old delta with its new delta", fn)
+    # serial of the merged delta is the new delta's
+    n += 1
+    for p in paths:
+        vals = [v for k, v in p.ret.items() if k and k[0] == ("f", i_serial)]
+        if not (len(vals) == 1 and mir.is_z(vals[0]) and not E.feasible(p.cond, vals[0] != new_serial)):
+            fn = mprop.write_cex(res, "wrapper_serial", p, E, "merged delta's serial is %s, not the newer delta's serial" % (vals,))
+            res.violation("mir:merge:serial", "PayloadDelta::merge does not give the merged delta the newer delta's serial", fn)
+    for ty in ("StandardDelta", "AspaDelta"):
+        b = E.prog.find(F, ty, "extend")
+        ps = [p for p in E.explore(b, max_visits=2) if p.kind == "return"]
+        n += 1
+        calls = [e for p in ps for e in p.events if e.kind == "call"]
+        cl = [b2 for nm, bs in E.prog.bodies.items() if nm.endswith("::extend::{closure#0}") and ty in (E.prog.self_type(nm) or "") for b2 in bs]
+        good = len(ps) == 1 and len(calls) == 1 and calls[0].name.endswith("Iterator::for_each") and len(cl) == 1
+        if good:
+            cps = [p for p in E.explore(cl[0].parse(), max_visits=2) if p.kind == "return"]
+            ccalls = [e for p in cps for e in p.events if e.kind == "call"]
+            good = len(cps) == 1 and len(ccalls) == 1 and ccalls[0].name.endswith(ty + "::push")
+        if not good:
+            fn = mprop.write_cex(res, "extend_" + ty, ps[0] if ps else mir.Path(mir.State(), {}, "static"), E,
+                                 "%s::extend is not `for each item: push(item)`" % ty)
+            res.violation("mir:merge:extend:" + ty, "%s::extend does not push every element of its iterator" % ty, fn)
+    res.distinct += n
 
 
 def run(res, tier):
-    res.functions += ["routinator::payload::delta::StandardDelta::<u8>::{merge, construct}"]
+    K = 3 if tier == "quick" else 4
     res.bounds += [
-        "three consecutive data sets a, b, c of sizes (1,1,1) (1,0,1) (0,1,0) (quick) and (2,1,2) (1,2,1) (2,2,2) "
-        "(thorough) with fully symbolic contents: merge(construct(a,b), construct(b,c)) is compared item by item, "
-        "action by action and count by count with construct(a,c); longer histories follow by folding (argued)",
+        "three consecutive data sets a, b, c over a universe of %d keys (every subset; for ASPAs every assignment of "
+        "absent / provider set 1..3 per key): the real StandardDelta::merge and AspaDelta::merge loops are executed "
+        "symbolically (up to %d iterations, push inlined) on d1 = delta(a,b), d2 = delta(b,c) and the result - "
+        "items, order, actions, ASPA provider payloads and both counters - is compared with delta(a,c); "
+        "more keys per delta are outside the bound" % (K, 2 * K + 3),
+        "histories longer than three data sets follow by folding: merge's output satisfies the same delta(a,c) "
+        "specification its inputs are assumed to satisfy (one inductive step over the history)",
     ]
-    res.assumptions += ["construct is correct (C11)"]
-    res.outside += ["AspaDelta::merge's provider change-and-change-back table (not covered by a harness)"]
-    res.rule = ("one case = one Kani harness (one triple of set sizes); non-trivial = SUCCESSFUL with a cover "
-                "witness; evaluations = CBMC checks")
-    run_kani_part(res, SPEC, tier)
+    res.assumptions += [
+        "input deltas are what construct must produce for consecutive sets (the per-key specification that C11 "
+        "checks construct against; for AspaDelta the specification is read off AspaDelta::construct: Announce / "
+        "Update(old providers) / Withdraw(old providers) with Aspa::withdraw() carrying no providers)",
+        "slice::Iter::next / Vec::push / Vec deref / Iterator::cloned replaced by sequence models (z3 arrays); "
+        "Delta::extend replaced by 'push every remaining element' after checking its body is for_each(push)",
+        "P::cmp is the integer order on keys (any total order behaves the same in a merge-join); ProviderAsns "
+        "equality is equality of provider-set ids",
+    ]
+    res.outside += ["SharedHistory's use of merge (C13)", "the fuzz targets"]
+    res.rule = ("one case = one feasible path through the merge loop (a sequence of per-key cases) for which z3 "
+                "proves the output equals the direct delta for every data-set triple driving that path; "
+                "non-trivial = distinct output shapes (action sequence, tail)")
+    E = mprop.engine(res)
+    run_merge(res, E, False, K, "std")
+    mprop.finish_engine(res, E)
+    E = mprop.engine(res)
+    run_merge(res, E, True, K, "aspa")
+    mprop.finish_engine(res, E)
+    E = mprop.engine(res)
+    check_wrappers(res, E)
+    mprop.finish_engine(res, E)
